@@ -125,6 +125,8 @@ type c15ChanOp struct {
 	kind     string
 	ch       string
 	closeAlt bool
+	inFor    bool   // the operation sits inside a for statement of its function
+	exit     string // where the `<-closeCh` case of a select goes: none | ret | leavesFor | noFor | staysInFor
 	deflt    bool
 	locks    []string
 	pos      token.Pos
@@ -493,7 +495,9 @@ type c15Walk struct {
 	freshFrom map[string]token.Pos // for `v = &T{…}`: fresh only after this position
 	atomicN   string               // local name of sync/atomic in this file
 	inSel     bool
-	asBase    bool // the expression being visited is the X of a selector
+	asBase    bool     // the expression being visited is the X of a selector
+	loops     []string // labels ("" = none) of the enclosing for statements of this function body, outermost first
+	label     string   // label of the statement about to be visited
 }
 
 func (g *c15Gen) walkFunc(f *c15Func) {
@@ -872,18 +876,26 @@ func (w *c15Walk) stmt(s ast.Stmt, held []c15Lock) {
 		w.block(x.Body.List, held)
 		w.stmt(x.Else, held)
 	case *ast.ForStmt:
+		lbl := w.label
+		w.label = ""
 		w.stmt(x.Init, held)
 		w.expr(x.Cond, held, false)
 		w.stmt(x.Post, held)
+		w.loops = append(w.loops, lbl)
 		w.block(x.Body.List, held)
+		w.loops = w.loops[:len(w.loops)-1]
 	case *ast.RangeStmt:
+		lbl := w.label
+		w.label = ""
 		w.expr(x.X, held, false)
 		if t, ok := w.g.info.Types[x.X]; ok {
 			if _, isChan := t.Type.Underlying().(*types.Chan); isChan {
 				w.op("range", w.chName(x.X), false, false, held, x.Pos())
 			}
 		}
+		w.loops = append(w.loops, lbl)
 		w.block(x.Body.List, held)
+		w.loops = w.loops[:len(w.loops)-1]
 	case *ast.SwitchStmt:
 		w.stmt(x.Init, held)
 		w.expr(x.Tag, held, false)
@@ -903,8 +915,27 @@ func (w *c15Walk) stmt(s ast.Stmt, held []c15Lock) {
 	case *ast.SelectStmt:
 		var cases []string
 		closeAlt, deflt := false, false
+		w.label = ""
+		var closeBody []ast.Stmt
 		for _, c := range x.Body.List {
 			cc := c.(*ast.CommClause)
+			isClose := func(e ast.Expr) {
+				if w.chName(e) == "closeCh" {
+					closeBody = cc.Body
+				}
+			}
+			switch comm := cc.Comm.(type) {
+			case *ast.ExprStmt:
+				if u, ok := comm.X.(*ast.UnaryExpr); ok && u.Op == token.ARROW {
+					isClose(u.X)
+				}
+			case *ast.AssignStmt:
+				if len(comm.Rhs) == 1 {
+					if u, ok := comm.Rhs[0].(*ast.UnaryExpr); ok && u.Op == token.ARROW {
+						isClose(u.X)
+					}
+				}
+			}
 			switch comm := cc.Comm.(type) {
 			case nil:
 				deflt = true
@@ -930,6 +961,9 @@ func (w *c15Walk) stmt(s ast.Stmt, held []c15Lock) {
 		}
 		sort.Strings(cases)
 		w.op("select", strings.Join(cases, ","), closeAlt, deflt, held, x.Pos())
+		if closeAlt {
+			w.g.ops[len(w.g.ops)-1].exit = w.closeExit(closeBody)
+		}
 		for _, c := range x.Body.List {
 			cc := c.(*ast.CommClause)
 			// accesses inside the comm statement (value sent, etc.)
@@ -939,7 +973,9 @@ func (w *c15Walk) stmt(s ast.Stmt, held []c15Lock) {
 			w.block(cc.Body, held)
 		}
 	case *ast.LabeledStmt:
+		w.label = x.Label.Name
 		w.stmt(x.Stmt, held)
+		w.label = ""
 	case *ast.ExprStmt:
 		w.expr(x.X, held, false)
 	case *ast.SendStmt:
@@ -1004,7 +1040,53 @@ func (w *c15Walk) op(kind, ch string, closeAlt, deflt bool, held []c15Lock, pos 
 	for _, l := range held {
 		ls = append(ls, l.name)
 	}
-	w.g.ops = append(w.g.ops, c15ChanOp{fn: w.f.name, kind: kind, ch: ch, closeAlt: closeAlt, deflt: deflt, locks: ls, pos: pos})
+	w.g.ops = append(w.g.ops, c15ChanOp{fn: w.f.name, kind: kind, ch: ch, closeAlt: closeAlt, deflt: deflt, locks: ls, pos: pos,
+		inFor: len(w.loops) > 0, exit: "none"})
+}
+
+// closeExit: where the body of a select's `<-closeCh` case sends control, judged by its last statement.
+//
+//	ret        return (or panic): the function is left
+//	leavesFor  `break L` with L the label of the OUTERMOST for statement around the select in this function
+//	noFor      the case falls out of the select (empty body, bare break) and the select is in no for statement
+//	staysInFor anything that keeps control inside an enclosing for: a bare `break` (leaves only the select),
+//	           falling out of the case, `continue`, a labelled break that leaves an inner for only
+func (w *c15Walk) closeExit(body []ast.Stmt) string {
+	inFor := len(w.loops) > 0
+	fall := "noFor"
+	if inFor {
+		fall = "staysInFor"
+	}
+	if len(body) == 0 {
+		return fall
+	}
+	switch s := body[len(body)-1].(type) {
+	case *ast.ReturnStmt:
+		return "ret"
+	case *ast.ExprStmt:
+		if c, ok := s.X.(*ast.CallExpr); ok {
+			if id, ok := c.Fun.(*ast.Ident); ok && id.Name == "panic" {
+				return "ret"
+			}
+		}
+	case *ast.BranchStmt:
+		switch s.Tok {
+		case token.BREAK:
+			if s.Label == nil {
+				return fall
+			}
+			if inFor && w.loops[0] == s.Label.Name {
+				return "leavesFor"
+			}
+			return fall
+		case token.CONTINUE:
+			return "staysInFor"
+		case token.GOTO:
+			w.g.unclassified(s.Pos(), "goto in the closeCh case of a select in %s", w.f.name)
+			return "staysInFor"
+		}
+	}
+	return fall
 }
 
 // expr visits an expression; write = the expression is the target of an assignment / inc / dec.
@@ -1128,6 +1210,7 @@ func (w *c15Walk) expr(e ast.Expr, held []c15Lock, write bool) {
 	case *ast.FuncLit:
 		// the body runs later (callback, goroutine, deferred): no lock of the enclosing region is assumed
 		sub := *w
+		sub.loops, sub.label = nil, ""
 		sub.block(x.Body.List, nil)
 	case *ast.TypeAssertExpr:
 		w.expr(x.X, held, false)
@@ -1609,8 +1692,8 @@ func (g *c15Gen) emit(fnames []string, roles map[string]map[string]bool, ctorOnl
 		for _, l := range o.locks {
 			ls = append(ls, LeanStr(l))
 		}
-		fmt.Fprintf(&b, "\n  { fn := %s, kind := .%s, ch := %s, closeAlt := %v, hasDefault := %v, locks := [%s] } /- line %d -/",
-			LeanStr(o.fn), o.kind, LeanStr(o.ch), o.closeAlt, o.deflt, strings.Join(ls, ", "), g.pkg.Fset.Position(o.pos).Line)
+		fmt.Fprintf(&b, "\n  { fn := %s, kind := .%s, ch := %s, closeAlt := %v, inFor := %v, closeExit := .%s, hasDefault := %v, locks := [%s] } /- line %d -/",
+			LeanStr(o.fn), o.kind, LeanStr(o.ch), o.closeAlt, o.inFor, o.exit, o.deflt, strings.Join(ls, ", "), g.pkg.Fset.Position(o.pos).Line)
 	}
 	b.WriteString("\n]\n\n")
 	sort.Strings(g.wg)
